@@ -8,6 +8,7 @@ import (
 	"net/url"
 	"strconv"
 	"strings"
+	"sync"
 	"sync/atomic"
 	"time"
 
@@ -16,6 +17,8 @@ import (
 	"verifharness/opfix"
 
 	"github.com/zitadel/oidc/v3/pkg/client/rp"
+	"github.com/zitadel/oidc/v3/pkg/client/rs"
+	"github.com/zitadel/oidc/v3/pkg/client/tokenexchange"
 	httphelper "github.com/zitadel/oidc/v3/pkg/http"
 	"github.com/zitadel/oidc/v3/pkg/oidc"
 	"github.com/zitadel/oidc/v3/pkg/op"
@@ -26,7 +29,10 @@ import (
 // interleaved deterministically at scheduling points (coopReq); observed per request: whose data its
 // outgoing request / answer carried. Property: its own, exactly as when it runs alone.
 
-var hkinds = []string{"HCodeExchange", "HAuthURL", "HRefresh", "HOPAuthorize"}
+var hkinds = []string{"HCodeExchange", "HAuthURL", "HRefresh", "HOPAuthorize", "HUserinfo", "HIntrospect", "HRevoke", "HEndSession", "HTokenExchange", "HDeviceAuthz"}
+
+// scheduling points a request of the kind passes (pause points beyond are "runs through")
+var hkindYields = []int{8, 8, 8, 8, 2, 2, 2, 2, 2, 2}
 
 type handlerRun struct {
 	w        *world
@@ -39,6 +45,11 @@ type handlerRun struct {
 	prov     http.Handler
 	authPath string
 	start    int // outlog length at setup
+	oauth    bool // the RP was built by NewRelyingPartyOAuth
+	rsrv     rs.ResourceServer
+	te       tokenexchange.TokenExchanger
+	tokMu    sync.Mutex
+	tokOwner map[string]int // access token -> request it was obtained for
 }
 
 func owner(prefix, v string) int {
@@ -53,7 +64,23 @@ func owner(prefix, v string) int {
 
 func newHandlerRun(cfg worldCfg, kind int, signer bool) *handlerRun {
 	w := newWorld(cfg)
-	h := &handlerRun{w: w, kind: kind, signer: signer}
+	h := &handlerRun{w: w, kind: kind, signer: signer, tokOwner: map[string]int{}}
+	switch kind {
+	case 5:
+		var err error
+		if h.rsrv, err = rs.NewResourceServerClientCredentials(bg, opfix.Issuer, "web", "web-secret", rs.WithClient(w.clients[1])); err != nil {
+			panic(err)
+		}
+		h.start = w.outLen()
+		return h
+	case 8:
+		var err error
+		if h.te, err = tokenexchange.NewTokenExchangerClientCredentials(bg, opfix.Issuer, "web", "web-secret", tokenexchange.WithHTTPClient(w.clients[1])); err != nil {
+			panic(err)
+		}
+		h.start = w.outLen()
+		return h
+	}
 	if kind == 3 {
 		newProvider(11, 12, nil, 0).run(w)
 		var eps op.Endpoints
@@ -67,7 +94,14 @@ func newHandlerRun(cfg worldCfg, kind int, signer bool) *handlerRun {
 	if signer {
 		opts = append(opts, rp.WithJWTProfile(rp.SignerFromKeyAndKeyID(rsaPEM, "kid1")))
 	}
-	r, err := rp.NewRelyingPartyOIDC(bg, opfix.Issuer, "web", "web-secret", "https://web.example.com/cb", w.rpScopes, opts...)
+	var r rp.RelyingParty
+	var err error
+	if h.oauth = (kind == 0 || kind == 2) && !signer && cfg.audHas; h.oauth { // the other constructor (no discovery: token endpoint only)
+		cc := *w.oauthCfg
+		r, err = rp.NewRelyingPartyOAuth(&cc, opts...)
+	} else {
+		r, err = rp.NewRelyingPartyOIDC(bg, opfix.Issuer, "web", "web-secret", "https://web.example.com/cb", w.rpScopes, opts...)
+	}
 	if err != nil {
 		panic(err)
 	}
@@ -132,6 +166,93 @@ func (h *handlerRun) serve(r int, c *coopReq) (run func(), observe func() int) {
 			}
 			return res
 		}
+	case 4, 5: // userinfo / introspection with an access token obtained for THIS call (users alternate)
+		user := []string{"alice", "bob"}[r%2]
+		tok := h.w.userToken(user)
+		h.tokMu.Lock()
+		h.tokOwner[tok] = r + 1
+		h.tokMu.Unlock()
+		good := false
+		run := func() {
+			if h.kind == 4 {
+				ui, err := rp.Userinfo[*oidc.UserInfo](ctx, tok, "Bearer", user, h.rpi)
+				good = err == nil && ui.Subject == user
+			} else {
+				resp, err := rs.Introspect[*oidc.IntrospectionResponse](ctx, h.rsrv, tok)
+				good = err == nil && resp.Active && resp.Subject == user
+			}
+		}
+		return run, func() int {
+			carried := func(o outReq) string {
+				if h.kind == 4 {
+					return strings.TrimPrefix(o.auth, "Bearer ")
+				}
+				return o.form.Get("token")
+			}
+			res, times := 95, 0
+			h.tokMu.Lock()
+			defer h.tokMu.Unlock()
+			for _, o := range h.w.outSince(h.start) {
+				if o.handle == c && carried(o) != "" {
+					if res = h.tokOwner[carried(o)]; res == 0 {
+						res = 90
+					}
+				}
+				if carried(o) == tok {
+					times++
+				}
+			}
+			switch {
+			case res != r+1:
+				return res // whose token went out on this call's request
+			case times != 1:
+				return 92 // this call's token was seen on another request too / not at all
+			case !good:
+				return 94 // the call did not return its own user's answer
+			}
+			return res
+		}
+	case 6, 7, 8, 9: // revocation / end session / token exchange / device authorization with per-call arguments
+		prefix, get := "", func(o outReq) string { return "" }
+		var run func()
+		switch h.kind {
+		case 6:
+			prefix, get = "tok-", func(o outReq) string { return o.form.Get("token") }
+			run = func() { rp.RevokeToken(ctx, h.rpi, fmt.Sprint("tok-", r), "access_token") }
+		case 7:
+			prefix, get = "st-", func(o outReq) string { return o.form.Get("state") + o.query.Get("state") }
+			run = func() { rp.EndSession(ctx, h.rpi, "", "https://web.example.com/bye", fmt.Sprint("st-", r)) }
+		case 8:
+			prefix, get = "sub-", func(o outReq) string { return o.form.Get("subject_token") }
+			run = func() {
+				tokenexchange.ExchangeToken(ctx, h.te, fmt.Sprint("sub-", r), oidc.AccessTokenType, "", "", nil, nil, []string{"openid"}, oidc.AccessTokenType)
+			}
+		default:
+			prefix, get = "scope-", func(o outReq) string {
+				for _, sc := range strings.Fields(o.form.Get("scope")) {
+					if strings.HasPrefix(sc, "scope-") {
+						return sc
+					}
+				}
+				return ""
+			}
+			run = func() { rp.DeviceAuthorization(ctx, []string{"openid", fmt.Sprint("scope-", r)}, h.rpi, nil) }
+		}
+		return run, func() int {
+			res, times := 95, 0
+			for _, o := range h.w.outSince(h.start) {
+				if o.handle == c && get(o) != "" {
+					res = owner(prefix, get(o))
+				}
+				if get(o) == fmt.Sprint(prefix, r) {
+					times++
+				}
+			}
+			if res == r+1 && times != 1 {
+				return 92
+			}
+			return res
+		}
 	default: // provider authorize request with its own state
 		rec := httptest.NewRecorder()
 		q := url.Values{}
@@ -156,12 +277,15 @@ func (h *handlerRun) serve(r int, c *coopReq) (run func(), observe func() int) {
 
 func runHandlers(wr *emit.Writer, r drv.Rand) {
 	cfg := randCfg(r)
-	kind := r.IntN(4)
+	kind := r.IntN(len(hkinds))
 	signer := r.Bool()
 	n := 2 + r.IntN(2)
 	pause := make([]int, n)
 	for i := range pause {
-		pause[i] = r.IntN(8) // 0 = runs through
+		pause[i] = r.IntN(hkindYields[kind]) // 0 = runs through
+		if kind >= 4 && r.Chance(1, 2) { // one round trip: park there while the later calls run
+			pause[i] = 1
+		}
 	}
 	order := r.Perm(n)
 	h0 := newWorld(cfg).snapshot(0, "")
